@@ -48,25 +48,27 @@ LEVEL_TEXT = (
     "foreign writes (edit / finalizer edit / delete / delete-and-recreate) before any of the four requests and all 404/422 "
     "injections: merge_delivered, routed_by_subresource, merge_complete and status_removal_delivered (`status: null` reaches "
     "/status like any status patch; the model follows the repair of C08-F1, commit 3352e7b), fns_atomic, conflict_keeps_all_fns, remaining_only_after_refusal, "
-    "block_idem / allow_idem / foreign_finalizers_untouched, carry_forward (exactly one application to the then-fresh state) "
-    "and carry_forward_not_repeated, reapply_membership (+ reapply_order_witness: re-application after a status-JSON conflict "
+    "block_idem / allow_idem / foreign_finalizers_untouched, carried_after_conflict + framework_fns_not_carried (handler fns are "
+    "carried, the framework's finalizer edits never), carry_forward (exactly one application of carried + newly decided fns to "
+    "the then-fresh state), finalizer_redecided (relative to any decision function: the conflicting decision is dropped, the "
+    "decision on the fresh state is applied once) and carry_forward_not_repeated, reapply_membership (+ reapply_order_witness: re-application after a status-JSON conflict "
     "can permute a mixed fn list), silent_404, raised_only_on_merge_422, same_object_partial (no recreate under the name "
     "during the call) and the negation of the full same_object: name_reuse_witness (finding F2). The model is hand-written; "
-    "it is tied to the real patch_obj/apply by a differential run (complete over the stated 27540-case grid in the thorough "
+    "it is tied to the real patch_obj/apply by a differential run (complete over the stated 32130-case grid in the thorough "
     "tier, sampled in quick, plus random contents) and to the whole operator by replaying every observed patch_obj call. "
-    "F5 (stale allow_deletion carried after a 422) is NOT a C08 violation: the property prescribes exactly that the "
-    "transformation is carried and re-applied to a fresh state; whether it is still wanted is C06's clause.")
+    "The model follows commit 1c8f3dd (F5 repaired: the framework's finalizer edits are re-decided, not carried).")
 THEOREMS = [("Kopf.Props.C08", "Kopf.C08." + n) for n in [
     "merge_delivered", "routed_by_subresource", "merge_complete", "status_removal_delivered",
     "fns_atomic", "conflict_keeps_all_fns", "remaining_only_after_refusal",
     "block_idem", "allow_idem", "foreign_finalizers_untouched",
-    "carry_forward", "carry_forward_not_repeated", "reapply_membership", "reapply_order_witness",
+    "carried_after_conflict", "framework_fns_not_carried", "carry_forward", "finalizer_redecided",
+    "carry_forward_not_repeated", "reapply_membership", "reapply_order_witness",
     "silent_404", "raised_only_on_merge_422", "same_object_partial", "name_reuse_witness"]]
 RULE = (
     "grid: subresource(2) x initial object {plain, foreign+own finalizer, marked+own finalizer}(3) x fields {none, "
     "metadata annotations, spec, status, metadata+status}(5) x fns {none, [block], [allow], [block,allow], [setStatus], "
-    "[block,setStatus]}(6) x slip {none | one of 4 request kinds x (edit spec, edit finalizers, delete, "
-    "delete-and-recreate)}(17) x fault {none | one of 4 kinds x (404, 422)}(9) = 27540 cases, half of them followed by a "
+    "[block,setStatus], [user block, block]}(7) x slip {none | one of 4 request kinds x (edit spec, edit finalizers, delete, "
+    "delete-and-recreate)}(17) x fault {none | one of 4 kinds x (404, 422)}(9) = 32130 cases (5/6 with process_resource_event's carry rule, 1/6 with the daemons'), half of them followed by a "
     "second (quiet) cycle that starts from the remaining patch; random stream: nested field dicts with null leaves, "
     "empty dicts, lists, unicode; 0-3 fns over two finalizer names and status keys; 0-2 slips; 0-2 faults; a case is "
     "distinct & non-trivial by its abstract trace (request kinds, codes, uid hits, slip fired, outcome) when at least "
@@ -179,6 +181,19 @@ def _mk_fn(desc: list) -> Any:
         return functools.partial(finalizers.block_deletion, finalizer=desc[1])
     if desc[0] == "allow":
         return functools.partial(finalizers.allow_deletion, finalizer=desc[1])
+    if desc[0] in ("ublock", "uallow"):
+        # a handler-supplied function with the effect of block/allow, but not the framework's partial
+        f, add = desc[1], desc[0] == "ublock"
+
+        def user_fin(body: dict, f: str = f, add: bool = add) -> None:
+            fins = body.setdefault("metadata", {}).setdefault("finalizers", [])
+            if add and f not in fins:
+                fins.append(f)
+            if not add:
+                fins[:] = [x for x in fins if x != f]
+            if not fins:
+                del body["metadata"]["finalizers"]
+        return user_fin
     if desc[0] == "setStatus":
         k, v = desc[1], desc[2]
 
@@ -354,6 +369,16 @@ async def _run_case(case: dict, settings: Any, logger: Any) -> dict:
             break
         if o["outcome"]["kind"] != "raised":
             remaining = o.pop("_remaining")     # memory.remaining_patch = remaining_patch
+            if remaining is not None and case.get("carrier", "event") == "event":
+                # process_resource_event: the framework's own finalizer edits are not carried (the code's own
+                # predicate decides which ones those are; the closed-loop part runs the real lines)
+                from kopf._core.reactor import processing
+                from kopf._cogs.structs import patches
+                is_own = getattr(processing, "_is_finalizer_fn", None)
+                if is_own is not None:
+                    keep = [f for f in remaining[0].fns if not is_own(f)]
+                    remaining = (patches.Patch(fns=keep), remaining[1]) if keep else None
+            o["memory_after"] = None if remaining is None else [remaining[1][id(f)] for f in remaining[0].fns]
         else:
             o.pop("_remaining")                 # the exception leaves the memory as it was
         cycles.append(o)
@@ -405,10 +430,10 @@ def o_apply_fns(fns: list, fins: list[str], status: Any) -> tuple[list[str], Any
     fins = list(fins)
     status = copy.deepcopy(status)
     for d in fns:
-        if d[0] == "block":
+        if d[0] in ("block", "ublock"):
             if d[1] not in fins:
                 fins.append(d[1])
-        elif d[0] == "allow":
+        elif d[0] in ("allow", "uallow"):
             fins = [x for x in fins if x != d[1]]
         elif d[0] == "setStatus":
             status = dict(status or {})
@@ -462,6 +487,8 @@ def oracle_call(ctx: Ctx, case: Any, i: int, o: dict, sub: bool, where: str = "p
         return
     # -- 404 / exceptions --------------------------------------------------------------------------
     codes = [r["code"] for r in reqs]
+    if any(c not in (200, 404, 422) for c in codes):
+        return      # an injected error of another kind (C12's subject) cut this call short
     if out["kind"] == "raised":
         merge422 = reqs and reqs[-1]["code"] == 422 and reqs[-1]["kind"].startswith("merge")
         if not merge422:
@@ -592,7 +619,12 @@ def oracle_case(ctx: Ctx, case: dict, obs: dict) -> None:
         if "skipped" in a or "skipped" in b:
             continue
         rem = a["outcome"].get("remaining") if a["outcome"]["kind"] == "ok" else None
+        if a["outcome"]["kind"] == "raised":
+            continue            # the memory stays as it was: covered by the cycle before
         carried = rem or []
+        if case.get("carrier", "event") == "event":
+            # the framework's own finalizer edits are decided anew, handler-supplied fns are carried
+            carried = [d for d in carried if d[0] not in ("block", "allow")]
         if b["fns"][:len(carried)] != carried:
             ctx.oracle_fail("the next cycle's patch does not start with the remaining transformations",
                             {"case": case, "cycle": i}, {"site": "patches.Patch", "shape": "remaining transformations not carried"})
@@ -635,7 +667,8 @@ def model_request(case: dict, obs: dict) -> list | None:
             break
         cycles.append({"fields": cyc["fields"], "fns": cyc["fns"], "orig": "server",
                        "slips": cyc.get("slips") or {}, "faults": {k: v for k, v in (cyc.get("faults") or {}).items() if v}})
-    return ["C08.cycles", {"sub": case["sub"], "server": first["server_before"], "memory": None, "cycles": cycles}]
+    return ["C08.cycles", {"sub": case["sub"], "daemon": case.get("carrier", "event") == "daemon",
+                           "server": first["server_before"], "memory": None, "cycles": cycles}]
 
 
 def impl_view(o: dict, via: str) -> dict:
@@ -644,8 +677,11 @@ def impl_view(o: dict, via: str) -> dict:
     out.pop("status", None)
     if via == "apply":
         out.pop("body", None)
-    return {"reqs": [{"kind": r["kind"], "payload": r["payload"], "target": r["target"], "code": r["code"]} for r in o["reqs"]],
+    view = {"reqs": [{"kind": r["kind"], "payload": r["payload"], "target": r["target"], "code": r["code"]} for r in o["reqs"]],
             "server": o["server_after"], "outcome": out}
+    if "memory_after" in o:
+        view["memory"] = o["memory_after"]
+    return view
 
 
 def model_view(m: dict, via: str) -> dict:
@@ -657,7 +693,10 @@ def model_view(m: dict, via: str) -> dict:
         out.pop("body", None)
     srv = dict(res["server"])
     srv["obj"] = canon_model_obj(srv["obj"])
-    return {"reqs": res["reqs"], "server": srv, "outcome": out}
+    view = {"reqs": res["reqs"], "server": srv, "outcome": out}
+    if "memory" in m and out["kind"] != "raised":
+        view["memory"] = m["memory"]
+    return view
 
 
 def abstract_key(case: dict, obs: dict) -> tuple[Any, bool]:
@@ -714,6 +753,7 @@ FNS = {
     "both": [["block", FIN], ["allow", FIN]],
     "status": [["setStatus", "observed", 7]],
     "block+status": [["block", FIN], ["setStatus", "observed", 7]],
+    "user": [["ublock", "user.io/u"], ["block", FIN]],
 }
 WRITES = {
     "edit": ["edit", {"spec": {"x": 5}}],
@@ -736,7 +776,7 @@ def grid() -> list[dict]:
         if fa is not None:
             cyc["faults"] = {fa[0]: fa[1]}
         case = {"sub": sub, "initial": INITIALS[ini], "cycles": [cyc], "via": "apply" if n % 5 == 0 else "patch_obj",
-                "tag": f"grid:{int(sub)}:{ini}:{fl}:{fn}:{sl}:{fa}"}
+                "carrier": "daemon" if n % 6 == 0 else "event", "tag": f"grid:{int(sub)}:{ini}:{fl}:{fn}:{sl}:{fa}"}
         if n % 2 == 0:
             case["cycles"].append({"fields": {}, "fns": [], "slips": {}, "faults": {}})
         cases.append(case)
@@ -795,10 +835,14 @@ def _rand_fns(rng: Any) -> list:
     for _ in range(rng.choice([0, 1, 1, 1, 2, 2, 3])):
         r = rng.random()
         f = FIN if rng.random() < 0.75 else rng.choice([OTHER, "new.io/n"])
-        if r < 0.4:
+        if r < 0.3:
             out.append(["block", f])
-        elif r < 0.8:
+        elif r < 0.55:
             out.append(["allow", f])
+        elif r < 0.7:
+            out.append(["ublock", rng.choice(["user.io/u", f])])
+        elif r < 0.8:
+            out.append(["uallow", rng.choice(["user.io/u", f])])
         else:
             out.append(["setStatus", rng.choice(["seen", "observed"]), rng.choice([1, "s", {"a": [1]}, True])])
     return out
@@ -831,7 +875,7 @@ def gen_random(rng: Any, i: int) -> dict:
                 cyc["faults"][rng.choice(KINDS)] = rng.choice([404, 422, 422])
         cycles.append(cyc)
     return {"sub": rng.random() < 0.5, "initial": ini, "cycles": cycles, "via": rng.choice(["patch_obj", "patch_obj", "apply"]),
-            "tag": f"random:{i}"}
+            "carrier": rng.choice(["event", "event", "daemon"]), "tag": f"random:{i}"}
 
 
 # ----------------------------------------------------------------------------------------------
